@@ -119,6 +119,17 @@ CHECKS["C07"] = dict(
          "instance is accepted — outside the encoded kernels, DESIGN §8).",
     design="§4 C07")
 
+CHECKS["C08"] = dict(
+    engine="E2 mirsym (MIR -> z3)", technique="symbolic execution of rustc MIR with bounded symbolic sets and inlined Environment setters, z3, native replay",
+    text="Bounded symbolic model checking of the raise kernels: check_raises_caught with its closures over <= 2 raised "
+         "and <= 2 caught names (class look-up and ancestor test free) returns Err iff inside a function some raised class "
+         "is unknown or has no caught ancestor; the Handle arm of gen_flow passes before ∪ arms to the guarded "
+         "expression and exactly the previous set to the arms and everything after; raise statements and context "
+         "function calls consult the check with the current environment.",
+    note="<= 2 names per set; hierarchy depth, the try/except translation (converter) and raises of methods resolved in "
+         "the unifier are outside.",
+    design="§4 C08")
+
 NOT_APPLICABLE = {
     "C02": "needs the generator executed on symbolic programs (core::fmt/to_py recursion does not finish in CBMC even on concrete 3-node trees) and membership in Python's grammar as the assertion; no encodable kernel (DESIGN §6)",
     "C04": "oracle is Python's dynamic semantics over whole programs and the subject is the whole checker (HashSet/recursion out of reach of Kani; not loop-free for the MIR executor) (DESIGN §6)",
